@@ -9,7 +9,7 @@ CONSTANTS
   PAns = {"ok"}
   PPub = {"ok"}
   Relay = 253
-  Ends = {253, 254, 255, 256, 260, 263, 300, 753, 1253, 1254, 2753, 5000}
+  Ends = {200, 253, 254, 255, 256, 260, 263, 300, 753, 1253, 1254, 2753, 5000}
   Sopts = {0, 253, 256, 5000}
   Ests = {0, 100, 253, 258, 6000}
   Cts = {0, 1, 2, 3, 4, 5, 6, 9}
